@@ -28,12 +28,18 @@ pub fn tx_uuid(id: u64, n: usize) -> Uuid {
 }
 
 pub fn make_tx(key: Uuid, p: u16, id: u64, first_seq: u64, n: usize, count: u8, ids: &mut HashMap<u64, Vec<Uuid>>) -> Transaction {
+    make_tx_in(key, p, id, first_seq, n, count, ids, &format!("r{id}"))
+}
+
+/// the same, with the stream the transaction's events belong to given by the caller
+#[allow(clippy::too_many_arguments)]
+pub fn make_tx_in(key: Uuid, p: u16, id: u64, first_seq: u64, n: usize, count: u8, ids: &mut HashMap<u64, Vec<Uuid>>, stream: &str) -> Transaction {
     let hash = uuid_to_partition_hash(key);
     let eids = ids.entry(id).or_insert_with(|| (0..n).map(|_| uuid_v7_with_partition_hash(hash)).collect()).clone();
     let evs: SmallVec<[NewEvent; 4]> = (0..n)
         .map(|i| NewEvent {
             event_id: eids[i],
-            stream_id: StreamId::new(format!("r{id}")).unwrap(),
+            stream_id: StreamId::new(stream.to_string()).unwrap(),
             stream_version: ExpectedVersion::Any,
             event_name: "R".into(),
             timestamp: 1_700_000_000_000_000_000,
